@@ -30,7 +30,7 @@ RULES = {
     "R10.3": "restore and load_checkpoint follow the read protocol; clean failures (FileNotFoundError / ValueError) precede instantiation / manager.restore",
     "R10.4": "each restore() override is assigned to the config key of the same meaning under `is not None`; the keys exist in all solver configs",
     "R10.5": "Solver._setup_config stores problem.config into self.config.problem when a problem instance is given",
-    "R10.6": "every attribute the constructor derives from a restored field is itself restored or is not loop-relevant (period consistency)",
+    "R10.6": "completeness: every field solver_state saves is read back by _restore_state_from_checkpoint, into the attribute it was saved from",
 }
 ASSUMPTIONS = [
     "hydra.utils.instantiate(config) builds the class named by _target_ with the config's fields as keyword arguments, recursively",
@@ -60,6 +60,7 @@ def run(ctx: Context, col) -> None:
     _targets(ctx, col)
     for cls in ctx.solvers():
         _fields(ctx, cls, col)
+        _complete(ctx, cls, col)
     _protocol(ctx, col)
     _overrides(ctx, col)
     _problem_config(ctx, col)
@@ -68,6 +69,7 @@ def run(ctx: Context, col) -> None:
     col.floor("R10.3", 8)
     col.floor("R10.4", 4)
     col.floor("R10.5", 1)
+    col.floor("R10.6", 5)
 
 
 # ------------------------------------------------------------------- R10.1
@@ -162,6 +164,20 @@ def _fields(ctx, cls, col):
         col.add("R10.2", f"{cls.name}._restore_state_from_checkpoint", ro.module.relpath, rfn.lineno, ok,
                 f"path {'.'.join(path)} exists in {root_cls.name if root_cls else '?'}" if ok else
                 f"path {'.'.join(path)} does not exist in {root_cls.name if root_cls else '?'}", text=f"path {'.'.join(path)} for {a}")
+
+
+def _complete(ctx, cls, col):
+    so, sfn, spaths, _ = save_paths(ctx, cls)
+    ro, rfn, rpaths, _ = restore_paths(ctx, cls)
+    saved = {v: k for k, v in spaths.items()}
+    restored = {v: k for k, v in rpaths.items()}
+    missing = sorted(".".join(p_) for p_ in saved if p_ not in restored)
+    crossed = sorted(f"{'.'.join(p_)}: saved from {saved[p_]}, restored into {restored[p_]}" for p_ in saved if p_ in restored and saved[p_] != restored[p_])
+    ok = not missing and not crossed
+    col.add("R10.6", f"{cls.name}._restore_state_from_checkpoint", ro.module.relpath, rfn.lineno, ok,
+            f"all {len(saved)} saved fields are restored into the attributes they came from" if ok else
+            (f"saved but never restored: {missing}" if missing else f"restored into a different attribute: {crossed}"),
+            text="saved fields all restored")
 
 
 # ------------------------------------------------------------------- R10.3
